@@ -8,7 +8,7 @@ W=$(mktemp -d /tmp/seedwt.XXXXXX); rmdir $W
 git -C /repo worktree add -q --detach $W HEAD || exit 3
 export XDG_CACHE_HOME=$(mktemp -d)
 mkdir -p $W/mutations/v && cp $D/demo.py $W/mutations/v/demo.py
-cd $W
+cd $W; export PYTHONPATH=$W
 /venv/bin/python mutations/v/demo.py >/tmp/seed_clean.out 2>&1; c0=$?
 git apply $D/patch.diff || { echo "PATCH DOES NOT APPLY"; cd /; git -C /repo worktree remove --force $W; exit 3; }
 rm -rf $XDG_CACHE_HOME; export XDG_CACHE_HOME=$(mktemp -d)
